@@ -896,9 +896,15 @@ class Interp(object):
             if name == "args":
                 return v.args
             raise PyRaise(mk_exc("AttributeError", name))
-        from .npmodel import NPModel, NSModel
+        from .npmodel import NPModel, NSModel, MaskedSel
         if isinstance(v, NSModel):
             return v.get(name)
+        if isinstance(v, MaskedSel):
+            if name == "size":
+                return v.size
+            if name in ("max", "min"):
+                return Builtin("masked." + name, lambda: v.extreme(name))
+            raise Unsupported("attribute %s of a masked selection" % name)
         if isinstance(v, np.ndarray):
             return self.np.array_attr(v, name)
         if isinstance(v, (T, Q, int, bool)) and not isinstance(v, np.ndarray):
